@@ -10,7 +10,7 @@ use std::os::unix::fs::MetadataExt;
 
 pub static DEF: PropDef = PropDef {
     id: "C16",
-    rule: "format strings from the statement's grammar: literal text (ASCII and multi-byte; no '%' or backslash), escapes \\a \\b \\f \\n \\r \\t \\v \\\\ \\0 \\NNN (three octal digits, 001-177), '%%', directives p f h H P d s n i U G m y Y l with optional '-' flag and width 0-40, 1-8 components; rendered by find in process on a tree that holds every creatable type (regular files with sizes and 12-bit modes incl. setuid/setgid/sticky, directories two levels deep, fifo, socket, hard link, links to file / directory / nothing / themselves, foreign owners) under starting points spelled c/d, ./c/d, c/d/, c/d//, ./c/d/., c/d/../d, absolute, c//d and '.', under -P/-H/-L, through -printf (stdout) or -fprintf (file). Exhaustive sub-run: every format of <= 2 (thorough 3) components over a 31-component alphabet. Oracle: an independent renderer fed by lstat/stat/readlink as the follow mode prescribes and by the reference walker's path strings; the output must equal the concatenation over the visit order, byte for byte. Identities checked on dedicated runs: %p == the -print path; %H == the starting point as given and %H + '/' + %P == %p below it; %y / %Y letters agree with which -type / -xtype selects the entry. Non-trivial = the format has >= 2 directives, one with a width, and some visited entry is a link or lies below a starting point not spelled as a plain name. Distinct = distinct case JSON.",
+    rule: "format strings from the statement's grammar: literal text (ASCII and multi-byte; no '%' or backslash), escapes \\a \\b \\f \\n \\r \\t \\v \\\\ \\0 \\NNN (three octal digits, 001-177), '%%', directives p f h H P d s n i U G m y Y l with optional '-' flag and width 0-40, 1-8 components; rendered by find in process on a tree that holds every creatable type (regular files with sizes and 12-bit modes incl. setuid/setgid/sticky, directories two levels deep, fifo, socket, hard link, links to file / directory / nothing / themselves, foreign owners) under starting points spelled c/d, ./c/d, c/d/, c/d//, ./c/d/., c/d/../d, absolute, c//d, '.', a link to a directory as such and with a trailing '/' or '/.', 1 case in 4 with -depth, under -P/-H/-L, through -printf (stdout) or -fprintf (file). Exhaustive sub-run: every format of <= 2 (thorough 3) components over a 31-component alphabet. Oracle: an independent renderer fed by lstat/stat/readlink as the follow mode prescribes and by the reference walker's path strings; the output must equal the concatenation over the visit order, byte for byte. Identities checked on dedicated runs: %p == the -print path; %H == the starting point as given and %H + '/' + %P == %p below it; %y / %Y letters agree with which -type / -xtype selects the entry. Non-trivial = the format has >= 2 directives, one with a width, and some visited entry is a link or lies below a starting point not spelled as a plain name. Distinct = distinct case JSON.",
     assumptions: &[
         "width/padding is asserted on values that are ASCII (entry names in the tree are ASCII; multi-byte text appears as literal text only)",
         "modes always have an owner permission bit so that %m has no leading zero whose printing the statement leaves open",
@@ -42,9 +42,12 @@ pub struct Case {
     pub to_file: bool,
     /// seed for the modes of the tree's files
     pub mode_seed: u16,
+    /// -depth: a directory is rendered after its contents (from the record it had when it was met)
+    #[serde(default)]
+    pub depth: bool,
 }
 
-pub const ROOTS: &[&str] = &["c/d", "./c/d", "c/d/", "c/d//", "./c/d/.", "c/d/../d", "@ABS@/c/d", "c//d", ".", "c/d/ln_dir", "c/d/ln_file", "c/d/f1"];
+pub const ROOTS: &[&str] = &["c/d", "./c/d", "c/d/", "c/d//", "./c/d/.", "c/d/../d", "@ABS@/c/d", "c//d", ".", "c/d/ln_dir", "c/d/ln_file", "c/d/f1", "c/d/ln_dir/", "c/d/ln_dir/."];
 const LETTERS: &[char] = &['p', 'f', 'h', 'H', 'P', 'd', 's', 'n', 'i', 'U', 'G', 'm', 'y', 'Y', 'l'];
 
 pub fn render_fmt(f: &[Comp]) -> String {
@@ -340,13 +343,16 @@ pub fn check(ctx: &mut Ctx, c: &Case) -> Outcome {
     let to_file = c.to_file && root != ".";
     let fmt = render_fmt(&c.fmt);
     let mut args: Vec<&str> = vec![fm.flag(), &root, "-sorted"];
+    if c.depth {
+        args.push("-depth");
+    }
     if to_file {
         args.extend(["-fprintf", "printf.out", &fmt]);
     } else {
         args.extend(["-printf", &fmt]);
     }
     // reference entries AFTER the output file exists? it lives outside every starting point except '.'
-    let wo = WalkOpts { follow: fm, ..Default::default() };
+    let wo = WalkOpts { follow: fm, depth_first: c.depth, ..Default::default() };
     let (entries, _events) = ref_paths(&root, &wo);
     let o = ctx.find(&args);
     let desc0 = format!("find {}", args.iter().map(|a| format!("{a:?}")).collect::<Vec<_>>().join(" "));
@@ -444,7 +450,7 @@ pub fn gen_case(g: &mut Gen) -> Case {
         // two adjacent literals would merge: fine; a literal is never generated starting with a digit
         fmt.push(c);
     }
-    Case { fmt, root: g.weighted(&[6, 2, 2, 2, 2, 1, 1, 1, 1, 1, 1, 1]) as u8, follow: g.weighted(&[4, 2, 3]) as u8, to_file: g.chance(1, 6), mode_seed: g.below(65536) as u16 }
+    Case { fmt, root: g.weighted(&[6, 2, 2, 2, 2, 1, 1, 1, 1, 1, 1, 1, 1, 1]) as u8, follow: g.weighted(&[4, 2, 3]) as u8, to_file: g.chance(1, 6), mode_seed: g.below(65536) as u16, depth: g.chance(1, 4) }
 }
 
 fn alphabet() -> Vec<Comp> {
@@ -553,14 +559,14 @@ fn run(w: &mut Worker) {
     let mut small: Vec<Case> = vec![];
     let mut k = 0u32;
     for a in &alpha {
-        small.push(Case { fmt: vec![a.clone()], root: 0, follow: 0, to_file: false, mode_seed: 1 });
+        small.push(Case { fmt: vec![a.clone()], root: 0, follow: 0, to_file: false, mode_seed: 1, depth: false });
         for b in &alpha {
             k += 1;
-            small.push(Case { fmt: vec![a.clone(), b.clone()], root: (k % 8) as u8, follow: (k % 3) as u8, to_file: false, mode_seed: k as u16 });
+            small.push(Case { fmt: vec![a.clone(), b.clone()], root: (k % 8) as u8, follow: (k % 3) as u8, to_file: false, mode_seed: k as u16, depth: k % 5 == 4 });
             if maxc >= 3 {
                 for c3 in &alpha {
                     k += 1;
-                    small.push(Case { fmt: vec![a.clone(), b.clone(), c3.clone()], root: (k % 8) as u8, follow: (k % 3) as u8, to_file: false, mode_seed: k as u16 });
+                    small.push(Case { fmt: vec![a.clone(), b.clone(), c3.clone()], root: (k % 8) as u8, follow: (k % 3) as u8, to_file: false, mode_seed: k as u16, depth: k % 5 == 4 });
                 }
             }
         }
